@@ -43,6 +43,10 @@ pub struct Spec {
     /// options are written (0 = first, as in every documented example)
     #[serde(default)]
     pub root_group: usize,
+    /// spell the options in their long forms (`--iters=3`, `--format=…`,
+    /// `--output=…`, `--define=…`, `--print`, `--quiet`)
+    #[serde(default)]
+    pub long_opts: bool,
 }
 
 /// The harness only needs to *add* a define to the options; it does not
@@ -89,7 +93,11 @@ impl Spec {
                     a.push(r.clone());
                 }
                 if let Some(t) = &self.iters {
-                    a.push(format!("-t{}", t));
+                    if self.long_opts {
+                        a.push(if t.is_empty() { "--iters".to_string() } else { format!("--iters={}", t) });
+                    } else {
+                        a.push(format!("-t{}", t));
+                    }
                 }
                 if self.no_opt_static {
                     a.push("--debug-no-optimize-static".to_string());
@@ -101,33 +109,45 @@ impl Spec {
                     a.push("--debug-iters".to_string());
                 }
                 for d in &self.defines {
-                    a.push("-d".to_string());
-                    a.push(d.clone());
+                    if self.long_opts {
+                        a.push(format!("--define={}", d));
+                    } else {
+                        a.push("-d".to_string());
+                        a.push(d.clone());
+                    }
                 }
                 if self.quiet {
-                    a.push("-q".to_string());
+                    a.push(if self.long_opts { "--quiet" } else { "-q" }.to_string());
                 }
                 if let Some(c) = &self.color {
                     a.push(format!("--color={}", c));
                 }
                 if self.help {
-                    a.push("-h".to_string());
+                    a.push(if self.long_opts { "--help" } else { "-h" }.to_string());
                 }
                 if self.version {
-                    a.push("-v".to_string());
+                    a.push(if self.long_opts { "--version" } else { "-v" }.to_string());
                 }
             }
             if let Some(g) = groups.get(gi) {
                 if let Some(f) = &g.format {
-                    a.push("-f".to_string());
-                    a.push(f.clone());
+                    if self.long_opts {
+                        a.push(format!("--format={}", f));
+                    } else {
+                        a.push("-f".to_string());
+                        a.push(f.clone());
+                    }
                 }
                 if let Some(o) = &g.out {
-                    a.push("-o".to_string());
-                    a.push(o.clone());
+                    if self.long_opts {
+                        a.push(format!("--output={}", o));
+                    } else {
+                        a.push("-o".to_string());
+                        a.push(o.clone());
+                    }
                 }
                 if g.print {
-                    a.push("-p".to_string());
+                    a.push(if self.long_opts { "--print" } else { "-p" }.to_string());
                 }
             }
         }
